@@ -7,7 +7,7 @@ k = json.load(open('/verif/known_findings.json'))
 ids = {f['id'] for f in k['findings']}
 added = 0
 for f in new:
-    if f['signature'].get('pf') == 'ill-formed-haystack':
+    if f['signature'].get('pf') == 'ill-formed-haystack' and 'strategy' in f['signature']:
         f['id'] = '%s-e2e-illformed' % prop
         f['signature'] = {'pf': 'ill-formed-haystack'}
         f['what'] = 'on haystacks that are not valid UTF-8 results differ from regexp (byte-level automata vs regexp\'s rune decoding: every invalid byte is U+FFFD of width 1), under every strategy; e.g. ' + f['what'].split('e.g. ', 1)[-1]
